@@ -46,6 +46,10 @@ bool ops_archive(Ctx& c, const json& s, int idx, bool& handled) {
 				if (call == "GetCount") return {true, (long)v.GetCount()}; if (call == "GetName") { std::string n = v.GetName(i); return {true, json(std::vector<unsigned char>(n.begin(), n.end()))}; }
 				if (call == "GetSize") return {true, std::to_string(v.GetSize(i))};
 				if (call == "OpenStream") { auto st = v.OpenStream(i); return {true, capped(drain(*st))}; }
+				if (call == "OpenStreamAfterFailedRead") { auto st = v.OpenStream(i); std::vector<unsigned char> big((std::size_t)st->Length() + 1);     // a refused read (one byte too many) must leave the stream as it was
+					bool refused = false; try { st->Read(big.data(), big.size()); } catch (const std::exception&) { refused = true; } if (!refused) return {false, 0};
+					if (st->Length() > 1) { unsigned char one; st->Read(&one, 1); refused = false; try { st->Read(big.data(), big.size() - 1); } catch (const std::exception&) { refused = true; } if (!refused) return {false, 0}; st->SeekBackward(1); }
+					return {true, capped(drain(*st))}; }
 				if (call == "SeekBeyond") { auto st = v.OpenStream(i); long accepted = 0;       // absolute seeks far outside a member stream (values next to 2^64, where offset arithmetic wraps)
 					for (unsigned long long k : {0ull, 1ull, 7ull, 8ull, 59ull, 60ull, 200ull, 5000ull}) { bool ok = true; try { st->Seek(UINT64_MAX - k); } catch (const std::exception&) { ok = false; } if (ok || st->Position() > st->Length()) ++accepted; }
 					return {true, accepted}; }
@@ -55,7 +59,7 @@ bool ops_archive(Ctx& c, const json& s, int idx, bool& handled) {
 		logev({{"e", "Call"}, {"obj", "long"}, {"call", "Open"}, {"i", 0}, {"key", "Open"}, {"ok", opened}, {"val", 0}});
 		{ bool again = true; try { auto f = openIt(); } catch (const std::exception&) { again = false; } logev({{"e", "Call"}, {"obj", "fresh"}, {"call", "Open"}, {"i", 0}, {"key", "Open"}, {"ok", again}, {"val", 0}}); }
 		if (!opened) return true;
-		for (auto& c : s["calls"]) { const std::string call = c["call"]; std::size_t i = c["i"]; const std::string key = call + ":" + std::to_string(i);
+		for (auto& c : s["calls"]) { const std::string call = c["call"]; std::size_t i = c["i"]; const std::string key = (call == "OpenStreamAfterFailedRead" ? std::string("OpenStream") : call) + ":" + std::to_string(i);   // the response to OpenStream is a function of the image, with or without a refused read in between
 			Proto::sanitize(Proto::g_site, sizeof Proto::g_site, site + "/" + call); Proto::sanitize(Proto::g_detail, sizeof Proto::g_detail, where(key));
 			auto a = doCall(*longLived, call, i); logev({{"e", "Call"}, {"obj", "long"}, {"call", call}, {"i", i}, {"key", key}, {"ok", a.first}, {"val", a.second}});
 			auto fresh = openIt(); auto b = doCall(*fresh, call, i); logev({{"e", "Call"}, {"obj", "fresh"}, {"call", call}, {"i", i}, {"key", key}, {"ok", b.first}, {"val", b.second}}); }
@@ -92,6 +96,9 @@ bool ops_archive(Ctx& c, const json& s, int idx, bool& handled) {
 			if (v->GetName(i) != Scen::str(L[i]["name"])) { Proto::mismatch(site, "name", w2(v->GetName(i))); return false; } if (v->GetSize(i) != L[i]["size"].get<uint32_t>()) { Proto::mismatch(site, "size", w2("")); return false; } if ((int)v->GetCompressionCode(i) != L[i]["kind"].get<int>()) { Proto::mismatch(site, "kind", w2("")); return false; }
 			std::vector<unsigned char> got; if (throws([&] { auto st = v->OpenStream(i); got = drain(*st); })) { Proto::mismatch(site + "/stream", "refused-should-accept", w2("")); return false; } if (got != raw(L[i]["stored"])) { Proto::mismatch(site + "/stream", "bytes", w2(Scen::hexdiff(got, raw(L[i]["stored"])))); return false; }
 			std::string d = ROOT + "/x" + std::to_string(i); const int kindCode = L[i]["kind"].get<int>(); if (kindCode == 257 || kindCode == 258) { if (!throws([&] { v->ExtractFile(i, d); })) { Proto::mismatch(site + "/extract-unsupported-kind", "accepted-should-refuse", w2("")); return false; } continue; } if (throws([&] { v->ExtractFile(i, d); })) { Proto::mismatch(site + "/extract", "refused-should-accept", w2("")); return false; } auto ex = Scen::slurp(d), want = raw(L[i]["plain"]); if (ex != want) { Proto::mismatch(site + (L[i]["kind"].get<int>() == 259 ? "/extract-lzh" : "/extract"), "bytes", w2(Scen::hexdiff(ex, want))); return false; } }
+		// the same object once more, members in descending order and then all at once: an extraction must not depend on what was extracted before it
+		for (std::size_t k = L.size(); k-- > 0; ) { const int kindCode = L[k]["kind"].get<int>(); if (kindCode == 257 || kindCode == 258) continue; std::string d = ROOT + "/y" + std::to_string(k);
+			if (throws([&] { v->ExtractFile(k, d); }) || Scen::slurp(d) != raw(L[k]["plain"])) { Proto::mismatch(site + "/extract-again", "bytes", where("member " + std::to_string(k) + " extracted after the members behind it")); return false; } }
 		if (!throws([&] { v->GetName(L.size()); })) { Proto::mismatch(site, "accepted-should-refuse", where("index = count (an unused slot)")); return false; } return true; }
 	// ---- C13, archive clause: member streams, copies of them and archive calls interleaved; every stream keeps its own position ----
 	if (op == "arch_interleave") {
